@@ -195,6 +195,8 @@ class AlgebraProfile(StoreProfile):
             j = rng.choice(stars)
             vals = vocab.values(tn, t.keys[j]) or []
             v = segs[j] if rng.random() < 0.7 or not vals else rng.choice(vals)
+            if "_" in segs[j].strip("_") and rng.random() < 0.5:
+                v = segs[j].rsplit("_", 1)[0]      # near miss: an existing value cut at the filename separator
             st["s"] = "/".join(host)
             st["pos"] = j
             st["value"] = v
